@@ -46,7 +46,7 @@ class C04(PoolCheck):
         return [{'api': 'iter_errors'}, {'api': 'decode_lax'}, {'api': 'validate'}, {'api': 'decode'}]
 
     def n_cases(self, tier):
-        return 5000 if tier == 'quick' else 150000
+        return 5000 if tier == 'quick' else 600000
 
     def gen_case(self, rng, index):
         key = rng.choice(self.keys)
